@@ -19,7 +19,9 @@ class SumIfControlConstructionTokenTranslator(AbstractTranslator):
         from excel2pycl.src.translators.matrix_of_cell_identifiers_token_translator import MatrixOfCellIdentifiersTokenTranslator
         range_ = MatrixOfCellIdentifiersTokenTranslator.translate_with_cells(start, finish, excel, context)
 
-        start_cell_of_needed = token.first_cell_of_needed or start
+        # the sum range is laid over the criteria range from its top left cell, whichever corner is written first (B1:A2 starts at A1)
+        start_cell_of_needed = (excel.get_top_left(token.first_cell_of_needed, token.last_cell_of_needed)
+                                if token.first_cell_of_needed else excel.get_top_left(start, finish))
         finish_cell_of_needed = excel.get_similar_second(start_cell_of_needed, start, finish)
         sum_range = MatrixOfCellIdentifiersTokenTranslator.translate_with_cells(start_cell_of_needed,
                                                                                 finish_cell_of_needed, excel, context)
